@@ -58,6 +58,45 @@ CHECKS = {
         "x record sets x {VbsWriter, IpmWriter} x {VBS, 1014} on BytesIO and real files, plus a read-back oracle.",
         "Trusted: as C03; real-file glue (open/flush) is exercised, not modelled.",
         "DESIGN.md §8 C11"),
+    'C13': (
+        "Lean 4 theorems (block = ISO 9564 nibble layout XOR PAN field via a proved nibble-wise-XOR = integer-XOR lemma; read-back = PIN; abstract cipher inverse) + behavioural correspondence + from-scratch DES reference",
+        "Machine-checked proof over a model that follows the code's string formatting and integer arithmetic: for EVERY PIN of "
+        "4..12 digits, PAN of >= 13 digits and 64-bit fill, the format-0 block's nibbles are (0,L,PIN,F..) XOR (0000, 12 PAN "
+        "digits) with L one hex digit, the format-4 block is (4,L,PIN,A..,random), rebuilding returns the PIN, and for any "
+        "cipher with D(E(x))=x the encrypted forms decrypt to the PIN (Props/C13.lean). Tied to /repo by differential "
+        "execution over all PIN x PAN lengths with digit sweeps, supplied/absent fills and 2-/3-key TDES, AES-128/192/256 "
+        "keys; ciphertexts checked against a from-scratch DES reference (AES: direct call of `cryptography`).",
+        "Trusted: Lean kernel; standard axioms; hand-written model validated by correspondence; refdes.py (FIPS KAT self-test); "
+        "AES from `cryptography`; D(E(x))=x is an explicit hypothesis; fill freshness observed, not proved.",
+        "DESIGN.md §8 C13"),
+    'C14': (
+        "Lean 4 theorems (TSP shape and definedness for all PIN lengths, decimalisation always four digits = two-scan spec, XOR combination order-independent and self-cancelling, text-level combine) generic in the cipher + behavioural correspondence + from-scratch DES reference",
+        "Machine-checked proof, with the block cipher as a parameter: the TSP is 11 PAN digits + index + leftmost 4 PIN digits "
+        "and the PVV is defined for every PIN >= 4 digits; decimalisation of any 16 hex digits yields exactly four decimal "
+        "digits per the two-scan rule; component combination is XOR (permutation-invariant, duplicates cancel) and renders "
+        "as 32 hex digits (Props/C14.lean). Tied to /repo by differential execution with real keys found for second-scan "
+        "classes 0..2(3), chosen ciphertexts through a cipher stub for classes 3..4, key-component lists, KCV and encrypted "
+        "ZMK, all against a from-scratch DES/3DES reference.",
+        "Trusted: as C13; the cipher stub replaces `Cipher` inside cardutil.pinblock only for the chosen-ciphertext cases.",
+        "DESIGN.md §8 C14"),
+    'C15': (
+        "Lean 4 theorems (check digit = unique Luhn digit; appended digit validates; validation = textbook validity; single-digit and adjacent-transposition detection by decomposition of the weighted sum + decide on digit tables) + behavioural correspondence in normal and -O interpreter modes",
+        "Machine-checked proof for digit strings of ANY length: the computed digit is the unique Luhn digit, appending it "
+        "validates, the code's validation is exactly Luhn validity, every single-digit change and every adjacent "
+        "transposition other than 0/9 of a valid number is rejected (Props/C15.lean). Tied to /repo by exhaustive "
+        "enumeration of all digit strings up to length 4 (quick) / 6 (thorough) with all edits, sampled long strings with "
+        "separators, each run in-process and in a `python -O` subprocess against the same model answer.",
+        "Trusted: Lean kernel; standard axioms; model restricted to ASCII digits; interpreter mode exercised, not modelled.",
+        "DESIGN.md §8 C15"),
+    'C16': (
+        "Lean 4 theorems (shape of mask for every length >= 10: length, first six, last four, every middle position = mask char; non-interference) + behavioural correspondence of mask() and of decoding under PAN / PAN-PREFIX configurations",
+        "Machine-checked proof: for every card number of >= 10 arbitrary characters and every mask character the masked value "
+        "has the same length, the same first six and last four characters and the mask character everywhere else, and is a "
+        "function of those ten characters and the length only (Props/C16.lean). Tied to /repo by differential execution over "
+        "every length 0..40 x 20 mask characters plus decodes under masking configurations (oracle: clear PAN absent from "
+        "every returned value).",
+        "Trusted: Lean kernel; standard axioms; hand-written model of mask/_pan_prefix validated by correspondence.",
+        "DESIGN.md §8 C16"),
 }
 
 
